@@ -156,7 +156,15 @@ func interpolateMap[K comparable, V any, M ~map[K]V](tf stringTransformer, m M) 
 // interpolateOrderedMap applies interpolateAny over any type of ordered.Map.
 // The map is altered in-place.
 func interpolateOrderedMap[K comparable, V any](tf stringTransformer, m *ordered.Map[K, V]) error {
-	return m.Range(func(k K, v V) error {
+	if m == nil {
+		return nil
+	}
+
+	// Build the interpolated map separately, then replace the contents of m.
+	// Renaming keys one at a time within m would delete any later item whose
+	// not-yet-interpolated key happens to equal an already-interpolated key.
+	interpolated := ordered.NewMap[K, V](m.Len())
+	err := m.Range(func(k K, v V) error {
 		// We interpolate both keys and values.
 		intk, err := interpolateAny(tf, k)
 		if err != nil {
@@ -167,7 +175,13 @@ func interpolateOrderedMap[K comparable, V any](tf stringTransformer, m *ordered
 			return err
 		}
 
-		m.Replace(k, intk, intv)
+		interpolated.Set(intk, intv)
 		return nil
 	})
+	if err != nil {
+		return err
+	}
+
+	*m = *interpolated
+	return nil
 }
